@@ -77,7 +77,8 @@ def ensure_facts(repo=None, verbose=True):
                 main_tag = hashlib.sha256(os.path.abspath('/repo').encode()).hexdigest()[:6]
                 keep_main = [d for d in olds if os.path.basename(d).startswith(main_tag)][-3:]   # never evict /repo's latest sets
                 for d in olds[:-8]:
-                    if d not in keep_main:
+                    # never evict the latest sets of /repo, nor a set another process may still be reading (touched in the last 15 minutes)
+                    if d not in keep_main and time.time() - os.path.getmtime(d) > 900:
                         shutil.rmtree(d, ignore_errors=True)
             os.makedirs(fdir, exist_ok=True)
             tgt = os.environ.get('PVX_TARGET', os.path.join(CACHE, 'target'))
